@@ -331,10 +331,17 @@ def features(root):
   return f
 
 
+def _strip_order(c):
+  if isinstance(c, tuple):
+    return tuple(_strip_order(e) for e in c
+                 if not (isinstance(e, tuple) and len(e) == 2 and isinstance(e[0], str) and e[0].endswith('#order')))
+  return c
+
+
 def build_canon(cfg):
   try:
     with rec.Trace():
-      return ('ok', C.canon(fdl.build(cfg), 'built'))
+      return ('ok', _strip_order(C.canon(fdl.build(cfg), 'built')))
   except Exception as e:  # pylint: disable=broad-except
     return ('raise', type(e).__name__)
 
@@ -482,6 +489,7 @@ def run_case(rng, acc):
                   dict_keys=['k1', 'k2', 4, (1, 'a'), None, 'z', 0])
   g = gen.DagGen(rng, opts)
   root = g.dag()
+  gen.kwargs_rename(root, rng, 0.4)      # >=2 **kwargs arguments: their assignment order is history
   sketch = gen.sketch(root)
   feats = features(root)
   if 'mixed-type-dict-keys' in feats:
